@@ -595,15 +595,9 @@ Proof.
   intros loc maxlen suffix r Hm Hlen. unfold run_truncate. fold (getf r loc).
   set (v := getf r loc) in *.
   replace (Z.of_nat (length v) >? maxlen + Z.of_nat (length suffix))%Z with true by lia.
-  rewrite go_slice_prefix by lia. cbn [obind].
+  replace (maxlen <? 0)%Z with false by lia.
   destruct (clean_utf8_never_panics (firstn (Z.to_nat maxlen) v)) as [p Hp].
-  exists p. split; [assumption|]. rewrite Hp. cbn [obind].
-  pose proof (clean_utf8_length _ _ Hp) as Hpl. rewrite firstn_length in Hpl.
-  unfold overwrite_n_truncate.
-  replace (length p <=? length (p ++ skipn (length p) v))%nat with true by (rewrite app_length; lia).
-  cbn [obind]. do 2 f_equal.
-  rewrite firstn_app, Nat.sub_diag, firstn_all, firstn_O, app_nil_r. f_equal.
-  apply firstn_all2. rewrite app_length, skipn_length. lia.
+  exists p. split; [assumption|]. rewrite Hp. reflexivity.
 Qed.
 
 Lemma truncate_spec_lemma : forall loc maxlen suffix r, (0 < maxlen)%Z ->
